@@ -16,13 +16,36 @@ CONSTANT TraceFile
 Trace == ndJsonDeserialize(TraceFile)
 VARIABLES l, mon, raw
 \* raw: [inp: client -> bytes sent raw, gots: client -> replies, sentb: <<c,k>> request bytes, ...]
-RawInit == [inp |-> <<>>, gots |-> <<>>, req |-> <<>>, ans |-> <<>>, nreq |-> <<>>, viol |-> {}]
+RawInit == [inp |-> <<>>, gots |-> <<>>, req |-> <<>>, ans |-> <<>>, seen |-> {}, viol |-> {}]
 Init == l = 1 /\ mon = MonInit /\ raw = RawInit
 
 IsRaw(c) == c \in DOMAIN raw.inp
 
-RawStep(r, m, e) ==
+SingleKinds == {"cmd", "get", "set"}
+RawStep(r, m0, m, e) ==
   CASE e.ev = "begin" -> RawInit
+    \* C02: what the client sent / what the node answered, as bytes (small) or digest (large; the digest of a request
+    \* is taken over the request with its command name lower-cased)
+    [] e.ev = "send" /\ (e.bytes # <<>> \/ e.raw # "") ->
+         [r EXCEPT !.req = Put(@, <<e.c, e.i>>, [bytes |-> e.bytes, low |-> e.raw, k |-> e.k])]
+    [] e.ev = "recv" /\ e.c # "" /\ <<e.c, e.i>> \in DOMAIN r.req /\ r.req[<<e.c, e.i>>].k \in SingleKinds ->
+         LET q == r.req[<<e.c, e.i>>]
+             same == IF e.bytes # <<>> /\ q.bytes # <<>> /\ e.raw = "" THEN e.bytes = LowerName(q.bytes) ELSE e.raw = q.low
+             wf == e.raw # "" \/ StrictRequest(e.bytes)
+             \* the same request arriving twice without a redirect in between carries somebody else's place
+             twice == <<e.c, e.i>> \in r.seen /\ \A s \in SeqRange(Sent(m, e.c)[e.i].slots) : <<e.c, e.i, s>> \notin DOMAIN m0.redir
+         IN [r EXCEPT !.seen = @ \cup {<<e.c, e.i>>},
+                      !.viol = @ \cup (IF same THEN {} ELSE {<<"C02", e.c, e.i, "request-bytes-altered">>})
+                                  \cup (IF twice THEN {<<"C02", e.c, e.i, "request-delivered-twice">>} ELSE {})
+                                  \cup (IF wf THEN {} ELSE {<<"C12", e.n, 0, "malformed-request-forwarded">>})]
+    [] e.ev = "answer" /\ e.fid # "" /\ e.kind \notin {"moved", "ask"} /\ (e.bytes # <<>> \/ e.raw # "") ->
+         [r EXCEPT !.ans = Put(@, <<e.c, e.i>>, [bytes |-> e.bytes, raw |-> e.raw])]
+    [] e.ev = "got" /\ ~IsRaw(e.c) /\ (e.bytes # <<>> \/ e.raw # "") ->
+         LET id == <<e.c, Len(Got(m0, e.c)) + 1>> IN
+         IF id \in DOMAIN r.ans /\ id \in DOMAIN r.req /\ r.req[id].k \in SingleKinds
+            /\ ~(IF e.raw # "" THEN e.raw = r.ans[id].raw ELSE e.bytes = r.ans[id].bytes)
+         THEN [r EXCEPT !.viol = @ \cup {<<"C02", id[1], id[2], "reply-bytes-altered">>}]
+         ELSE r
     [] e.ev = "rawsend" -> [r EXCEPT !.inp = Put(@, e.c, At(r.inp, e.c, <<>>) \o e.bytes)]
     [] e.ev = "got" /\ IsRaw(e.c) -> [r EXCEPT !.gots = Put(@, e.c, Append(At(r.gots, e.c, <<>>), e.rep))]
     [] e.ev = "recv" /\ e.bytes # <<>> ->
@@ -30,6 +53,10 @@ RawStep(r, m, e) ==
     [] e.ev = "recvbad" -> [r EXCEPT !.viol = @ \cup {<<"C12", e.n, 0, "malformed-request-forwarded">>}]
     [] e.ev = "quiesce" ->
          [r EXCEPT !.viol = @ \cup
+            \* C02: every single-key request of a connection that is still open reached a backend (intact: checked on arrival)
+            { <<"C02", id[1], id[2], "request-never-reached-a-backend">> :
+                id \in {x \in DOMAIN r.req : r.req[x].k \in SingleKinds /\ x \notin r.seen /\ Cst(m, x[1]) = "open"
+                                              /\ x[2] <= Len(Got(m, x[1])) /\ Got(m, x[1])[x[2]].t # "perr"} } \cup
             { <<"C12", c, 0, "invalid-input-neither-answered-with-error-nor-closed">> :
                 c \in {x \in DOMAIN r.inp : /\ Classify(r.inp[x]) = "invalid"
                                             /\ Cst(m, x) = "open"
@@ -43,7 +70,7 @@ Next ==
          m2 == IF e.ev = "got" /\ IsRaw(e.c) THEN mon
                ELSE IF e.ev = "pclose" /\ IsRaw(e.c) THEN [mon EXCEPT !.cst = Put(@, e.c, "pclosed")]
                ELSE MonApply(mon, e)
-         r2 == RawStep(raw, m2, e)
+         r2 == RawStep(raw, mon, m2, e)
      IN /\ mon' = m2 /\ raw' = r2
         /\ IF e.ev = "begin" THEN TRUE ELSE Report(mon.viol, m2.viol, e) /\ Report(raw.viol, r2.viol, e)
         /\ IF l = Len(Trace) THEN PrintT(<<"DONE", l>>) ELSE TRUE
